@@ -42,12 +42,29 @@
    - C20_roundtrip_dec_discharged: the round trip with NO assumption on the decoder - only
      [comp_contract] (and the typing fact [comp_writes_bytes]: byte strings in, byte strings
      written) is left;
-   - C20_read_session_framed: the read side alone, for any file that is one frame. *)
+   - C20_read_session_framed: the read side alone, for any file that is one frame.
+
+   COMPRESSOR SIDE DISCHARGED (Proofs/FileCompInst.v).  cBegin / cUpdate / cEnd are instantiated with
+   the byte model of lz4frame.c's compressor (Model/FrameC.v, C03/C07) plus the
+   dstMaxSize_tooSmall tests that FrameC.v leaves out, written with LZ4F_compressBound_internal of
+   the size model (Model/FrameCSizes.v, C10):
+   - [comp_contract_open] = [comp_contract] for contents below 2^64 bytes and a dictID below 2^32
+     (the byte model's theorems need both; the C types enforce them);
+   - C20_comp_contract_open_holds: for every block compressor meeting blk_contract (what it writes
+     decodes, by the strict block judgment, to its input with the history offered), every call
+     of an lz4file session succeeds within LZ4F_compressBound(maxWriteSize, prefs) bytes (19 for
+     the header) and the file is ONE frame that Spec.frame_decode decodes to the content;
+   - C20_comp_writes_bytes_holds: byte strings in, byte strings written (given that the block
+     compressor writes bytes);
+   - C20_roundtrip_discharged: the round trip through BOTH models, with no contract of the LZ4F
+     layer left: what remains assumed is the contract of the BLOCK compressors (C01/C06/C11/C12)
+     and the ties of the models to the code (C03/C08/C10/C20 correspondence runs). *)
 From Coq Require Import ZArith List Bool.
 From LZ4V Require Import Model.FrameD Proofs.FrameDProofs.   (* before Model.File: both define [dres] *)
 From LZ4V Require Import Gen.Consts Spec.BlockSpec Spec.FrameSpec Model.FrameCSizes Model.File Model.FileInst.
 From LZ4V Require Import Proofs.FileProofs Proofs.FileInstProofs.
-From LZ4V Require Import Proofs.FileDecInst.
+From LZ4V Require Import Proofs.FileDecInst Proofs.FileCompInst.
+From LZ4V Require Model.FrameC Proofs.FrameCTheorems.
 Import ListNotations.
 
 (* For ALL contents and write-size sequences (bufs : the buffers handed to successive
@@ -148,6 +165,48 @@ Example C20_example_framed_reads :
   read_session dstate dctx_init fd_info fd_dec true [] csize_frame [3%nat] = FOk (chop [] [3%nat]) /\
   fst (fd_info dctx_init (firstn 11 csize_frame)) = FErr FD_ERR_frameHeader_incomplete.
 Proof. vm_compute. repeat split; reflexivity. Qed.
+
+(* ---- the compressor side, discharged with the model of lz4frame.c's compressor ---- *)
+Theorem C20_comp_contract_open_holds : forall blk,
+  FrameCTheorems.blk_contract strict_valid blk ->
+  comp_contract_open FrameC.cctx FrameC.cctx_zero fc_begin (fc_update blk) (fc_end blk).
+Proof. exact fc_comp_contract_open. Qed.
+Print Assumptions C20_comp_contract_open_holds.
+
+Theorem C20_comp_writes_bytes_holds : forall blk, blk_bytes blk ->
+  comp_writes_bytes FrameC.cctx FrameC.cctx_zero fc_begin (fc_update blk) (fc_end blk).
+Proof. exact fc_writes_bytes. Qed.
+Print Assumptions C20_comp_writes_bytes_holds.
+
+(* C20_roundtrip with BOTH sides discharged: the only hypotheses left are about the block compressor *)
+Theorem C20_roundtrip_discharged : forall blk,
+  FrameCTheorems.blk_contract strict_valid blk -> blk_bytes blk ->
+  forall (po : option prefs) (mw : nat) (bufs : list (list byte)) (sizes : list nat) (junk : list byte),
+    maxWrite_of po = Some mw -> FileProofs.csize_ok po (concat bufs) -> prefs_wf po ->
+    (Z.of_nat (length (concat bufs)) < FrameC.U64)%Z -> bytes_ok (concat bufs) = true ->
+    exists file : list byte,
+      write_session FrameC.cctx FrameC.cctx_zero fc_begin (fc_update blk) (fc_end blk) po bufs
+        = (FOk (map (fun b => FOk (length b)) bufs), file) /\
+      frame_ok file (concat bufs) /\
+      read_session dstate dctx_init fd_info fd_dec true junk file sizes = FOk (chop (concat bufs) sizes).
+Proof. exact roundtrip_discharged. Qed.
+Print Assumptions C20_roundtrip_discharged.
+
+(* the hypotheses are satisfiable and the instances run: a block compressor that never compresses
+   (every block stored raw) meets both; "hello" written in two pieces with NULL preferences, read
+   back in reads of 2, 0, 9 and 1 bytes *)
+Definition blk_raw : nat -> list byte -> list byte -> option (list byte) := fun _ _ _ => None.
+Example C20_example_discharged :
+  FrameCTheorems.blk_contract strict_valid blk_raw /\ blk_bytes blk_raw /\
+  (let '(w, file) := write_session FrameC.cctx FrameC.cctx_zero fc_begin (fc_update blk_raw) (fc_end blk_raw) None
+                                   [[104; 101]%Z; [108; 108; 111]%Z] in
+   w = FOk [FOk 2%nat; FOk 3%nat] /\ frame_ok file [104; 101; 108; 108; 111]%Z /\
+   read_session dstate dctx_init fd_info fd_dec true [7; 7; 7]%Z file [2%nat; 0%nat; 9%nat; 1%nat]
+     = FOk (chop [104; 101; 108; 108; 111]%Z [2%nat; 0%nat; 9%nat; 1%nat])).
+Proof.
+  split; [intros n h x c H; discriminate H|]. split; [intros n h x c H; discriminate H|].
+  vm_compute. repeat split; reflexivity.
+Qed.
 
 (* what the read results [chop content sizes] are: the content in order ... *)
 Theorem C20_reads_deliver_content : forall sizes content,
